@@ -216,20 +216,29 @@ Section Jwe.
 
   (* jose_jwe_enc_cek_io up to the call of encr.enc: (algorithm, jwe with enc recorded and protected encoded) *)
   Definition enc_cek_prepare (jwe cek : json) : option (encr_alg * json) :=
-    let sub (k : bytes) : opt_str :=
+    let enc_of (hm : list (bytes * json)) : opt_str :=
+      match alookup s_enc hm with
+      | None => OAbsent
+      | Some (JStr s) => OStr (cstr s)
+      | Some _ => OBad
+      end in
+    (* [encoded]: the member may already be base64url text (the protected header only, since /repo 54a50c4) *)
+    let sub (k : bytes) (encoded : bool) : opt_str :=
       match jwe with
       | JObj m => match alookup k m with
                   | None => OAbsent
-                  | Some (JObj hm) => match alookup s_enc hm with
-                                      | None => OAbsent
-                                      | Some (JStr s) => OStr (cstr s)
-                                      | Some _ => OBad
+                  | Some (JObj hm) => enc_of hm
+                  | Some (JStr s) =>
+                      if encoded then match jose_b64_dec_load (JStr s) with
+                                      | Some (JObj hm) => enc_of hm
+                                      | _ => OBad
                                       end
+                      else OBad
                   | Some _ => OBad
                   end
       | _ => OBad
       end in
-    match sub s_unprotected, sub s_protected, get_opt_str s_alg cek with
+    match sub s_unprotected false, sub s_protected true, get_opt_str s_alg cek with
     | OBad, _, _ | _, OBad, _ | _, _, OBad => None
     | hu, hp, k =>
         let h := match hp with OStr x => Some x | _ => match hu with OStr x => Some x | _ => None end end in
